@@ -158,6 +158,7 @@ package bpv7
 
 // govc:func (*Bundle).MarshalCbor property C01
 //@ requires w != nil && blocksNonNil(*b)
+//@ assigns wstream(w), b.PrimaryBlock.CRC, elems(b.CanonicalBlocks)
 //@ requires cbOff(b.CanonicalBlocks, 0) == 0
 //@ requires forall i int :: 0 <= i && i < len(b.CanonicalBlocks) ==> cbOff(b.CanonicalBlocks, i + 1) == cbOff(b.CanonicalBlocks, i) + (b.CanonicalBlocks[i].CRCType != 0 ? 8 : 6)
 //@ let p := wpos(w)
